@@ -4,6 +4,8 @@ import CollectionsC.Proofs.HashTableDerived
 import CollectionsC.Proofs.HashSet
 import CollectionsC.Proofs.HashSetLedger
 import CollectionsC.Proofs.HashTableHistory
+import CollectionsC.Proofs.HashSetIter
+import CollectionsC.Proofs.HashTableSession
 /-! # C02 — CC_HashTable / CC_HashSet are exact maps / sets under every configuration
 
 Statements and closing proofs only (helpers: `Proofs/HashTable*.lean`, `Proofs/HashSet.lean`).
@@ -16,7 +18,16 @@ list with distinct keys, two lists being the same map when one is a permutation 
 Quantifiers: every hash function `c.hash : Nat → Nat` (so also the constant one), every threshold
 function `c.thr` (every load factor), every key including the NULL key `none`, every value, every
 finite history, every allocator schedule, every table satisfying the invariant (every capacity
-`2^k`, `k ≤ 31`; the constructor produces such a table from every configured capacity). -/
+`2^k`, `k ≤ 31`; the constructor produces such a table from every configured capacity).
+
+What is abstracted (and carried by the correspondence harness instead): keys are `Nat` compared with
+`=` and `c.hash` is a *function of the key*, so "`key_cmp`-equal keys have equal hashes" — the
+documented contract between `key_compare` and `hash` — is built into the model; key kinds (string,
+fixed-length bytes incl. length 8 = `sizeof(void*)` and lengths not divisible by 4, pointer), the
+seed and the arithmetic of djb2 / MurmurHash3 / the pointer hash are not modelled in Lean: the harness
+runs them on real buffers (`keys=buf`), the driver transcribes them so that L3 follows the real bucket
+layout.  `history_refines` admits the key `some 0`, which a C table cannot hold next to NULL (a non-NULL
+key is a non-zero pointer); only `enumeration_exact_keys` needs that precondition (`hnz`). -/
 set_option maxHeartbeats 800000
 namespace CC.Properties.C02
 open CC CC.HT CC.Spec
@@ -190,7 +201,8 @@ theorem history_statuses_closed (c : HCfg) (ops : List Op) (t : HashTable) (m : 
 driven by *any* program of `next`/`remove` calls (including `remove` before the first `next` and
 repeated `remove`) behaves like the ideal cursor over the map the history produced; the table then
 holds the cursor's map, satisfies the invariant and owns its blocks, so that any further history
-again refines the ideal map started from the cursor's map. -/
+again refines the ideal map started from the cursor's map — and the state after that history again
+satisfies the invariant and the ledger precondition, so the theorem chains: any number of sessions. -/
 theorem history_then_iterator (c : HCfg) (ops₁ ops₂ : List Op) (prog : List HashTable.IterOp) (t : HashTable) (m : Mem)
     (h : t.Inv c) (hl : t.size + 2 ≤ liveOf m t.triple) :
     let t₁ := (t.run c ops₁ m).2.2.1
@@ -201,7 +213,9 @@ theorem history_then_iterator (c : HCfg) (ops₁ ops₂ : List Op) (prog : List 
     r.1 = cur.1 ∧ r.2.1.abs = cur.2.2 ∧ r.2.1.Inv c ∧ r.2.2.2.fault = m.fault ∧
     (r.2.1.run c ops₂ r.2.2.2).1 = (Map.run cur.2.2 ops₂ (r.2.1.run c ops₂ r.2.2.2).2.1).1 ∧
     (r.2.1.run c ops₂ r.2.2.2).2.2.1.abs.Perm (Map.run cur.2.2 ops₂ (r.2.1.run c ops₂ r.2.2.2).2.1).2 ∧
-    (r.2.1.run c ops₂ r.2.2.2).2.2.2.fault = m.fault := by
+    (r.2.1.run c ops₂ r.2.2.2).2.2.2.fault = m.fault ∧
+    (r.2.1.run c ops₂ r.2.2.2).2.2.1.Inv c ∧
+    (r.2.1.run c ops₂ r.2.2.2).2.2.1.size + 2 ≤ liveOf (r.2.1.run c ops₂ r.2.2.2).2.2.2 (r.2.1.run c ops₂ r.2.2.2).2.2.1.triple := by
   dsimp only
   obtain ⟨_, a2, a3, a4, a5⟩ := history_refines c ops₁ t m t.abs h hl (List.Perm.refl _)
   have hl₁ := history_keeps_owned c ops₁ t m h hl
@@ -210,10 +224,35 @@ theorem history_then_iterator (c : HCfg) (ops₁ ops₂ : List Op) (prog : List 
     ((t.run c ops₁ m).2.2.1.iterInit (t.run c ops₁ m).2.2.2).1 (t.run c ops₁ m).2.2.2 _ a3 hrel hl₁
   have hl₂ := b6
   rw [← b7] at hl₂ hl₁
-  obtain ⟨c1, c2, _, _, c5⟩ := history_refines c ops₂ _
-    (HashTable.iterRun c prog (t.run c ops₁ m).2.2.1 ((t.run c ops₁ m).2.2.1.iterInit (t.run c ops₁ m).2.2.2).1 (t.run c ops₁ m).2.2.2).2.2.2
-    _ b3 (by omega) (by rw [b2])
-  exact ⟨a2, b1, b2, b3, by rw [b5]; exact a5, c1, c2, by rw [c5, b5]; exact a5⟩
+  have hl₃ : (HashTable.iterRun c prog (t.run c ops₁ m).2.2.1 ((t.run c ops₁ m).2.2.1.iterInit (t.run c ops₁ m).2.2.2).1 (t.run c ops₁ m).2.2.2).2.1.size + 2 ≤
+      liveOf (HashTable.iterRun c prog (t.run c ops₁ m).2.2.1 ((t.run c ops₁ m).2.2.1.iterInit (t.run c ops₁ m).2.2.2).1 (t.run c ops₁ m).2.2.2).2.2.2
+        (HashTable.iterRun c prog (t.run c ops₁ m).2.2.1 ((t.run c ops₁ m).2.2.1.iterInit (t.run c ops₁ m).2.2.2).1 (t.run c ops₁ m).2.2.2).2.1.triple := by omega
+  obtain ⟨c1, c2, c3, _, c5⟩ := history_refines c ops₂ _ _ _ b3 hl₃ (by rw [b2])
+  exact ⟨a2, b1, b2, b3, by rw [b5]; exact a5, c1, c2, by rw [c5, b5]; exact a5, c3, history_keeps_owned c ops₂ _ _ b3 hl₃⟩
+
+/-- **one alphabet for everything the property names**: table calls, any number of iterator sessions
+(`iter_init`, then any `next`/`remove` calls; `get`/`contains_key` are allowed while a session is open,
+a structural call closes it), `foreach_key/value`, `get_keys/get_values` (array built, read and
+destroyed).  Every history over it refines the ideal map-with-cursor: outputs agree (enumerations up
+to order, which is unspecified), the final table holds the ideal map, invariant, ledger and cursor
+relation hold again — so the theorem chains — and nothing faults.  `hbig` is `cc_array_new_conf`'s
+byte-size guard for the largest size the history can reach. -/
+theorem session_refines (c : HCfg) (ops : List HashTable.SOp) (t : HashTable) (m : Mem)
+    (h : t.Inv c) (hl : t.size + 2 ≤ liveOf m t.triple)
+    (hbig : 8 * (t.size + ops.length) ≤ Gen.CC_MAX_ELEMENTS) :
+    HashTable.OutsRel (HashTable.sessRun c ops ⟨t, none⟩ m).1
+      (HashTable.idealRun ⟨t.abs, none⟩ ops (HashTable.sessRun c ops ⟨t, none⟩ m).2.1).1 ∧
+    HashTable.SessRel c (HashTable.sessRun c ops ⟨t, none⟩ m).2.2.1
+      (HashTable.idealRun ⟨t.abs, none⟩ ops (HashTable.sessRun c ops ⟨t, none⟩ m).2.1).2
+      (HashTable.sessRun c ops ⟨t, none⟩ m).2.2.2 ∧
+    (HashTable.sessRun c ops ⟨t, none⟩ m).2.2.2.fault = m.fault :=
+  HashTable.sessRun_refines c ops ⟨t, none⟩ ⟨t.abs, none⟩ m ⟨h, List.Perm.refl _, hl, trivial⟩ hbig
+
+/-- what `SessRel` says about the final state, spelled out -/
+theorem session_final (c : HCfg) (s : HashTable.Sess) (i : HashTable.ISess) (m : Mem) (hr : HashTable.SessRel c s i m) :
+    s.t.Inv c ∧ s.t.abs.Perm i.mp ∧ s.t.size = Map.size i.mp ∧ s.t.size + 2 ≤ liveOf m s.t.triple := by
+  obtain ⟨h1, h2, h3, _⟩ := hr
+  exact ⟨h1, h2, by rw [size_eq c s.t h1]; exact Map.size_perm h2, h3⟩
 
 /-! ## The property in its own vocabulary (facts about the ideal map) -/
 
@@ -419,19 +458,78 @@ theorem set_history_refines (c : HCfg) (ops : List Set.Op) (s : HashSet) (m : Me
     simp only [HashSet.run, Set.run, List.headD_cons, List.tail_cons]
     refine ⟨by rw [← s1, ← i1], i2, i3, by omega, by rw [i5, s5]⟩
 
-/-- … and from the set constructor -/
+/-- set histories compose: the ledger precondition is re-established -/
+theorem set_history_keeps_owned (c : HCfg) (ops : List Set.Op) (s : HashSet) (m : Mem)
+    (h : s.Inv c) (hl : s.size + 3 ≤ liveOf m s.triple) :
+    (s.run c ops m).2.2.1.size + 3 ≤ liveOf (s.run c ops m).2.2.2 (s.run c ops m).2.2.1.triple := by
+  have := (set_history_refines c ops s m s.abs h hl (List.Perm.refl _)).2.2.2.1
+  rw [(HashSet.run_table c ops s m).2.2.2]; omega
+
+/-- … and from the set constructor, under every schedule (a refusing constructor yields no set) and
+for both triples: outputs, content, invariant, ledger (so that further histories and iterator
+sessions apply), no fault -/
 theorem set_new_history_refines (c : HCfg) (cap : Nat) (tr : Triple) (m0 : Mem) (s0 : HashSet)
     (hnew : (HashSet.new c cap tr m0).2.1 = some s0) (ops : List Set.Op) :
     (s0.run c ops (HashSet.new c cap tr m0).2.2).1 = (Set.run [] ops (s0.run c ops (HashSet.new c cap tr m0).2.2).2.1).1 ∧
     (s0.run c ops (HashSet.new c cap tr m0).2.2).2.2.1.abs.Perm (Set.run [] ops (s0.run c ops (HashSet.new c cap tr m0).2.2).2.1).2 ∧
-    (s0.run c ops (HashSet.new c cap tr m0).2.2).2.2.2.fault = m0.fault := by
+    (s0.run c ops (HashSet.new c cap tr m0).2.2).2.2.2.fault = m0.fault ∧
+    (s0.run c ops (HashSet.new c cap tr m0).2.2).2.2.1.Inv c ∧
+    (s0.run c ops (HashSet.new c cap tr m0).2.2).2.2.1.size + 3 ≤
+      liveOf (s0.run c ops (HashSet.new c cap tr m0).2.2).2.2.2 (s0.run c ops (HashSet.new c cap tr m0).2.2).2.2.1.triple := by
   obtain ⟨_, _, n3, n4⟩ := HashSet.new_spec c cap tr m0
   obtain ⟨_, q2, q3, q4, q5⟩ := n3 s0 hnew
   have hsz : s0.size = 0 := by
     have := (set_wf c s0 q2).2
     rw [q3] at this; simpa using this
-  obtain ⟨r1, r2, _, _, r5⟩ := set_history_refines c ops s0 (HashSet.new c cap tr m0).2.2 [] q2 (by rw [q5]; omega) (by rw [q3])
-  exact ⟨r1, r2, by rw [r5]; exact n4⟩
+  have hl0 : s0.size + 3 ≤ liveOf (HashSet.new c cap tr m0).2.2 s0.triple := by rw [q5]; omega
+  obtain ⟨r1, r2, r3, _, r5⟩ := set_history_refines c ops s0 (HashSet.new c cap tr m0).2.2 [] q2 hl0 (by rw [q3])
+  exact ⟨r1, r2, by rw [r5]; exact n4, r3, set_history_keeps_owned c ops s0 _ q2 hl0⟩
+
+/-- `cc_hashset_foreach` hands every element of the set to the callback exactly once -/
+theorem set_foreach_exact (c : HCfg) (s : HashSet) (m : Mem) (h : s.Inv c) :
+    (s.foreach m).1 = s.abs ∧ (s.foreach m).1.Nodup ∧ (s.foreach m).2 = m := by
+  obtain ⟨f1, f2⟩ := HashSet.foreach_refines c s m h
+  exact ⟨f1, by rw [f1]; exact (set_wf c s h).1, f2⟩
+
+/-- the set's failure oracle is pinned: without refusals and below the maximal capacity a set history
+reports no failed insertion -/
+theorem set_history_statuses_closed (c : HCfg) (ops : List Set.Op) (s : HashSet) (m : Mem)
+    (h : s.Inv c) (hl : s.size + 3 ≤ liveOf m s.triple) (hs : m.sched = [])
+    (hcap : (s.run c ops m).2.2.1.capacity ≠ Gen.MAX_POW_TWO) :
+    (s.run c ops m).2.1 = List.replicate ops.length none := by
+  obtain ⟨t1, t2, _, _⟩ := HashSet.run_table c ops s m
+  have hl' : s.table.size + 2 ≤ liveOf m s.table.triple := by rw [h.2.2]; unfold HashSet.size at hl; omega
+  have := (history_statuses_closed c (ops.map HashSet.toT) s.table m h.1 hl' hs
+    (by rw [← t2]; exact hcap)).1
+  rw [t1, this, List.length_map]
+
+/-- **set operations interleaved with an iterator session**: after any set history, any program of
+`cc_hashset_iter_next`/`iter_remove` calls behaves like the ideal cursor over the set the history
+produced; afterwards the set satisfies the invariant and owns its blocks, and any further history
+refines the ideal set started from the cursor's set -/
+theorem set_history_then_iterator (c : HCfg) (ops₁ ops₂ : List Set.Op) (prog : List HashTable.IterOp) (s : HashSet) (m : Mem)
+    (h : s.Inv c) (hl : s.size + 3 ≤ liveOf m s.triple) :
+    let s₁ := (s.run c ops₁ m).2.2.1
+    let m₁ := (s.run c ops₁ m).2.2.2
+    let r := HashSet.iterRun c prog s₁ (s₁.iterInit m₁).1 m₁
+    let cur := (HashSet.SCursor.mk s₁.abs none).run s₁.abs prog
+    s₁.abs.Perm (Set.run s.abs ops₁ (s.run c ops₁ m).2.1).2 ∧
+    r.1 = cur.1 ∧ r.2.1.abs = cur.2.2 ∧ r.2.1.Inv c ∧ r.2.2.2.fault = m.fault ∧
+    (r.2.1.run c ops₂ r.2.2.2).1 = (Set.run cur.2.2 ops₂ (r.2.1.run c ops₂ r.2.2.2).2.1).1 ∧
+    (r.2.1.run c ops₂ r.2.2.2).2.2.1.abs.Perm (Set.run cur.2.2 ops₂ (r.2.1.run c ops₂ r.2.2.2).2.1).2 ∧
+    (r.2.1.run c ops₂ r.2.2.2).2.2.1.Inv c ∧
+    (r.2.1.run c ops₂ r.2.2.2).2.2.1.size + 3 ≤ liveOf (r.2.1.run c ops₂ r.2.2.2).2.2.2 (r.2.1.run c ops₂ r.2.2.2).2.2.1.triple ∧
+    (r.2.1.run c ops₂ r.2.2.2).2.2.2.fault = m.fault := by
+  dsimp only
+  obtain ⟨_, a2, a3, a4, a5⟩ := set_history_refines c ops₁ s m s.abs h hl (List.Perm.refl _)
+  have hl₁ := set_history_keeps_owned c ops₁ s m h hl
+  obtain ⟨b1, b2, b3, b5, b6, b7⟩ := HashSet.iterRun_refines c prog (s.run c ops₁ m).2.2.1 (s.run c ops₁ m).2.2.2 a3 hl₁
+  have hl₂ : (HashSet.iterRun c prog (s.run c ops₁ m).2.2.1 ((s.run c ops₁ m).2.2.1.iterInit (s.run c ops₁ m).2.2.2).1 (s.run c ops₁ m).2.2.2).2.1.size + 3 ≤
+      liveOf (HashSet.iterRun c prog (s.run c ops₁ m).2.2.1 ((s.run c ops₁ m).2.2.1.iterInit (s.run c ops₁ m).2.2.2).1 (s.run c ops₁ m).2.2.2).2.2.2
+        (HashSet.iterRun c prog (s.run c ops₁ m).2.2.1 ((s.run c ops₁ m).2.2.1.iterInit (s.run c ops₁ m).2.2.2).1 (s.run c ops₁ m).2.2.2).2.1.triple := by
+    rw [b7]; omega
+  obtain ⟨c1, c2, c3, _, c5⟩ := set_history_refines c ops₂ _ _ _ b3 hl₂ (by rw [b2])
+  exact ⟨a2, b1, b2, b3, by rw [b5]; exact a5, c1, c2, c3, set_history_keeps_owned c ops₂ _ _ b3 hl₂, by rw [c5, b5]; exact a5⟩
 
 
 /-! ## Non-vacuity -/
@@ -447,6 +545,11 @@ example : exTable.Inv exCfg := by decide
 example : exTable.abs = [(none, 13), (some 1, 11), (some 2, 12)] := by decide
 example : ((exTable.run exCfg [.add (some 5) 50, .add (some 1) 99, .remove none, .get (some 1), .get none]
     { live := 5 }).1.map (·.val)) = [none, none, some 13, some 99, none] := by decide
+/-- a history over the unified alphabet: two iterator sessions with a look-up inside the first one,
+a removal through the iterator, both enumerations -/
+example : ((HashTable.sessRun exCfg [.itInit, .it .next, .tab (.get (some 1)), .it .remove, .it .remove, .tab (.add (some 9) 90),
+      .itInit, .it .next, .foreachKey, .getValues] ⟨exTable, none⟩ { live := 5 }).2.2.1.t.abs)
+    = [(some 9, 90), (some 1, 11), (some 2, 12)] := by decide
 /-- three insertions into a table of capacity 1 with threshold `cap/2` resize it to capacity 8 -/
 example : ((HashTable.mk 1 0 0 [[]] .conf).run ⟨fun k => k, fun cap => cap / 2, fun cap => cap * 2⟩
     [.add (some 1) 1, .add (some 2) 2, .add none 3] { live := 2 }).2.2.1.capacity = 8 := by decide
